@@ -104,6 +104,9 @@ func (r *runReport) finish() int {
 					toolErrors = append(toolErrors, "vacuous precondition: "+o.Name)
 				} else {
 					coverLost = append(coverLost, o.Name)
+					if r.verbose {
+						fmt.Printf("  unreachable: %s at %s\n", o.Name, o.Pos)
+					}
 				}
 			case "unknown":
 				// reachability undetermined: not counted
